@@ -26,7 +26,10 @@ META = {
             "switch, loss of the first backend + fallback) TLC enumerates; PluginQueueImpl.tla is the code-shaped model of the configuration-phase "
             "queue whose gate-point orders TLC enumerates. All are replayed on the live proxy with scripted fake "
             "clients/backends, gate orders forced through verif gate points, the real caps as explicit histories, "
-            "and the observations validated by TLC. Histories and schedules are the quantifier.",
+            "and the observations validated by TLC (the acceptor also bounds what a backend receives of the messages "
+            "sent before it was released: the proxy held them all at once). A fault history lets the first backend "
+            "die in the flush with 100 big messages queued and sends 100 more for the fallback backend. Histories "
+            "and schedules are the quantifier.",
     "design_ref": "DESIGN.md section 4, C24",
     "level_note": "A vanilla 1.20.1 client's read loop is blocked while the first connection is established, so its "
                   "early messages wait in the socket and are judged like all others (order, once). The pre-join "
@@ -49,6 +52,16 @@ CAPS = [
     {"kind": "capsplay763", "count": 1025, "size": 16, "last": 16},
     {"kind": "capsplay763", "count": 129, "size": 32767, "last": 128},
     {"kind": "capsplay763", "count": 129, "size": 32767, "last": 129},
+]
+
+
+# fault + caps: 100 big messages queued for a backend that dies in the flush, 100 more for the
+# fallback backend: each batch alone is below 4 MiB, together they are not
+FAULTS = [
+    {"kind": "flushfail765", "size": 32767,
+     "h": ["msg"] * 100 + ["failready"] + ["msg"] * 100 + ["ready", "finish", "join"]},
+    {"kind": "flushfail765", "size": 32767,
+     "h": ["msg"] * 100 + ["failready"] + ["msg"] * 28 + ["ready", "msg", "finish", "join"]},
 ]
 
 
@@ -76,6 +89,14 @@ def in_join_window(h):
     return "msg" in seq[seq.index("finish"):seq.index("join")]
 
 
+def lost_key(kind, state, ctxt):
+    # one call site whatever way the join was reached: clientPlaySessionHandler.handlePluginMessage
+    # while connectedServer() is nil (client in play state, backend's JoinGame not handled yet)
+    if state == "play" and ctxt == "after-finish":
+        return "lost:play-message-after-finish-before-joingame"
+    return "lost:%s:%s-message-%s" % (kind, state, ctxt)
+
+
 def classify(rj):
     run, bad = rj["run"], rj["bad"] or {}
     reset = run[0] if run else {}
@@ -86,14 +107,22 @@ def classify(rj):
     ev = bad.get("ev")
     if ev == "brecv":
         k = bad.get("k")
-        if k is not None and k <= got:
+        if k is not None and k <= max([x.get("k", 0) for x in before if x.get("ev") == "brecv"] + [0]):
             return "duplicate-or-reordered:%s:%s" % (kind, context(reset, k))
+        sizes = {x.get("k"): x.get("n", 0) for x in before if x.get("ev") == "csend"}
+        if sizes.get(k) == bad.get("n") and any(x.get("ev") == "release" for x in before):
+            rel = max(i for i, x in enumerate(before) if x.get("ev") == "release")
+            pre = {x.get("k") for x in before[:rel] if x.get("ev") == "csend"}
+            held = [x for x in before[rel:] if x.get("ev") == "brecv" and x.get("k") in pre]
+            hb = sum(x.get("n", 0) for x in held) + bad.get("n", 0)
+            if k in pre and (len(held) + 1 > 1024 or hb > 4 * 1024 * 1024):
+                return "held-more-than-the-caps:%s:%d-messages,%d-bytes" % (kind, len(held) + 1, hb)
         st = next((x.get("state") for x in before if x.get("ev") == "csend" and x.get("k") == got + 1), "?")
-        return "lost:%s:%s-message-%s" % (kind, st, context(reset, got + 1))
+        return lost_key(kind, st, context(reset, got + 1))
     if ev == "end":
         if bad.get("alive") and got < sent:
             st = next((x.get("state") for x in before if x.get("ev") == "csend" and x.get("k") == got + 1), "?")
-            return "lost:%s:%s-message-%s" % (kind, st, context(reset, got + 1))
+            return lost_key(kind, st, context(reset, got + 1))
         if bad.get("alive"):
             return "no-disconnect:%s:count=%s,size=%s,last=%s" % (kind, reset.get("count"), reset.get("size"),
                                                                   reset.get("last"))
@@ -130,17 +159,20 @@ def run(ctx):
         keep, per = [], {}
         for h in hists:
             k = (h["kind"], in_join_window(h))
-            if per.get(k, 0) < (1 if k[1] else 14):
+            if k[1] and h["kind"] != "join765":
+                continue        # the join window (a known finding) is shown once, on the plain join
+            if per.get(k, 0) < (1 if k[1] else 10):
                 per[k] = per.get(k, 0) + 1
                 keep.append(h)
         hists = keep
-    hists = hists + CAPS
+    faults = FAULTS[:1] if ctx.quick else FAULTS
+    hists = hists + CAPS + faults
     with open(ctx.path("sched.json"), "w") as fh:
         json.dump(scheds, fh)
     with open(ctx.path("hist.json"), "w") as fh:
         json.dump(hists, fh)
-    ctx.log("gate orders: %d, histories: %d of %d (+%d cap histories)" % (len(scheds), len(hists) - len(CAPS), nall,
-                                                                           len(CAPS)))
+    ctx.log("gate orders: %d, histories: %d of %d (+%d cap histories)" % (len(scheds), len(hists) - len(CAPS) - len(faults), nall,
+                                                                           len(CAPS) + len(faults)))
     ctx.harness("./c24", "TestSched|TestHist", timeout=2400)
     ss = json.load(open(ctx.path("stats_sched.json")))
     sh = json.load(open(ctx.path("stats_hist.json")))
@@ -196,6 +228,7 @@ def run(ctx):
         "gate_orders_diverged": ss["diverged"],
         "history_runs_by_kind": sh["kinds"],
         "cap_histories": len(CAPS),
+        "fault_histories": len(faults),
         "trace_events_validated": matched,
         "race_detector": False,
         "exhaustive": not ctx.quick,
